@@ -364,8 +364,54 @@ def sc_unary(rng, opts):
     return dict(fn=fn, oracle=oracle, operands=[a], describe=dict(sym=sym, op=op, perm=perm, trans=a.trans, k=str(k), src_dst=(src, dst)))
 
 
+def _sc_trace_fused(rng, sym, cfg):
+    """trace over a pair of HARD-FUSED legs whose constituents differ in sector content (a mask is needed), on a tensor that may carry a pending
+    transposition and a meta-fused leg in front of them"""
+    k = rng.randint(2, 3)
+    la = [rleg(rng, cfg, sym, maxD=2) for _ in range(k)]
+    lb = [(l if rng.random() < 0.4 else perturb_leg(rng, cfg, sym, l)).conj() for l in la]
+    nfree = rng.randint(1, 3)
+    free = [rleg(rng, cfg, sym, maxD=2) for _ in range(nfree)]
+    legs = free + la + lb
+    a = rtensor(rng, cfg, legs, n=allowed_charge(rng, cfg, sym, legs), cplx=rng.random() < 0.3, drop=rng.choice([0, 0.3]))
+    ga, gb = tuple(range(nfree, nfree + k)), tuple(range(nfree + k, nfree + 2 * k))
+    meta_front = nfree >= 2 and rng.random() < 0.5
+    perm = list(range(nfree - (1 if meta_front else 0) + 2)); rng.shuffle(perm)
+    use_perm = rng.random() < 0.6
+    consume = rng.random() < 0.3
+
+    def fn():
+        f = a.fuse_legs(axes=tuple(range(nfree)) + (ga, gb), mode='hard')
+        if meta_front:
+            f = f.fuse_legs(axes=((0, 1),) + tuple(range(2, f.ndim)), mode='meta')
+        nd = f.ndim
+        p_ = perm if use_perm else list(range(nd))
+        f = f.transpose(tuple(p_))
+        if consume:
+            f = f.consume_transpose()
+        r_ = f.trace(axes=(p_.index(nd - 2), p_.index(nd - 1)))
+        # bring the remaining legs back to the order of the free legs and unfuse
+        rest = [q for q in p_ if q < nd - 2]
+        r_ = r_.transpose(tuple(np.argsort(rest).tolist())) if len(rest) > 1 else r_
+        return r_.unfuse_legs(axes=0) if meta_front else r_
+
+    def oracle(c):
+        lga = dict(enumerate(a.get_legs()))
+        for i, j in zip(ga, gb):
+            u = yastn.legs_union(lga[i], lga[j].conj())
+            lga[i], lga[j] = u, u.conj()
+        d = dense(a, lga)
+        letters = 'abcdefghij'
+        sub = [letters[5 + i] for i in range(nfree)] + [letters[i] for i in range(k)] * 2
+        ref = np.einsum(''.join(sub) + '->' + ''.join(sub[:nfree]), d)
+        return dict(dense=ref, legs={i: lga[i] for i in range(nfree)}, n=a.n)
+    return dict(fn=fn, oracle=oracle, operands=[a], describe=dict(sym=sym, op='trace_fused', k=k, nfree=nfree, meta_front=meta_front, perm=perm if use_perm else None, consume=consume))
+
+
 def sc_trace(rng, opts):
     sym, cfg = pick_cfg(rng, opts)
+    if rng.random() < 0.35 and not opts.get('mode'):
+        return _sc_trace_fused(rng, sym, cfg)
     npairs = rng.randint(1, 2)
     nfree = rng.randint(0, 2)
     legs = []
@@ -593,6 +639,32 @@ def _sc_remove_meta(rng, sym, cfg):
     return dict(fn=fn, oracle=oracle, operands=[a], intermediates=inter, describe=dict(sym=sym, op='remove_meta', axes=axes, where=where, trans=a.trans))
 
 
+def _sc_add_meta(rng, sym, cfg, a, r):
+    """add_leg(leg=<meta-fused leg of dimension one made of two unit legs>) at any position, also counted from the end (the default is -1)"""
+    ones = []
+    for _ in range(2):
+        s1 = rng.choice([1, -1])
+        ones.append(yastn.Leg(cfg, s=s1, t=[rcharge(rng, sym)], D=[1]) if sym != 'dense' else yastn.Leg(cfg, s=s1, D=[1]))
+    lm = yastn.ones(cfg, legs=ones, n=cfg.sym.add_charges(*[l.t[0] for l in ones], signatures=tuple(l.s for l in ones)) if sym != 'dense' else None)
+    lm = lm.fuse_legs(axes=((0, 1),), mode='meta').get_legs(0)
+    axis = rng.randint(-(r + 1), r)
+    default = axis == -1 and rng.random() < 0.5
+
+    def fn():
+        b = a.add_leg(leg=lm) if default else a.add_leg(leg=lm, axis=axis)
+        return b.unfuse_legs(axes=axis % (r + 1))
+
+    def oracle(c):
+        d = dense(a)
+        lg = list(a.get_legs()) if a.ndim else []
+        pos = axis % (r + 1)
+        d2 = np.expand_dims(np.expand_dims(d, pos), pos)
+        lg2 = lg[:pos] + ones + lg[pos:]
+        n2 = cfg.sym.add_charges(a.n, *[l.t[0] for l in ones], signatures=(1,) + tuple(l.s for l in ones)) if sym != 'dense' else a.n
+        return dict(dense=d2, legs=dict(enumerate(lg2)), n=n2 if a.size > 0 else None)
+    return dict(fn=fn, oracle=oracle, operands=[a], describe=dict(sym=sym, op='add_meta', axis=axis, default=default, trans=a.trans))
+
+
 def sc_legs(rng, opts):
     """add_leg / remove_leg"""
     sym, cfg = pick_cfg(rng, opts)
@@ -603,9 +675,11 @@ def sc_legs(rng, opts):
     axis = rng.randint(-(r + 1), r)
     s = rng.choice([1, -1])
     t = rcharge(rng, sym) if sym != 'dense' and rng.random() < 0.6 else None
-    op = rng.choice(['add', 'add_remove', 'add2', 'remove_meta'])
+    op = rng.choice(['add', 'add_remove', 'add2', 'remove_meta', 'add_meta'])
     if op == 'remove_meta':
         return _sc_remove_meta(rng, sym, cfg)
+    if op == 'add_meta':
+        return _sc_add_meta(rng, sym, cfg, a, r)
 
     def fn():
         b = a.add_leg(axis=axis, s=s, t=t)
@@ -918,9 +992,13 @@ def sc_ncon(rng, opts):
     if use_einsum:
         conjs = [0 for _ in ts]
 
+    implicit = use_einsum and rng.random() < 0.4 and sorted(es.split('->')[1]) == list(es.split('->')[1])
+    # (implicit mode of np.einsum: no '->', output indices in alphabetical order; usable when the explicit output is already alphabetical)
+    es_call = es.split('->')[0] if implicit else es
+
     def fn():
         if use_einsum:
-            return yastn.einsum(es, *ts, order=None)
+            return yastn.einsum(es_call, *ts, order=None)
         return yastn.ncon(ts, inds, conjs=conjs, order=order if order else None)
 
     def oracle(c):
@@ -936,7 +1014,7 @@ def sc_ncon(rng, opts):
                 if i < 0:
                     out[-i - 1] = l.conj() if cj else l
         return dict(dense=ref, legs=out, n=n)
-    return dict(fn=fn, oracle=oracle, operands=ts, describe=dict(sym=sym, shape=shape, order=order, einsum=use_einsum, conjs=conjs, policy=cfg.tensordot_policy))
+    return dict(fn=fn, oracle=oracle, operands=ts, describe=dict(sym=sym, shape=shape, order=order, einsum=es_call if use_einsum else None, conjs=conjs, policy=cfg.tensordot_policy))
 
 
 def sc_chain(rng, opts):
@@ -1040,9 +1118,61 @@ def _subtree_len(tree, k):
     return j - k
 
 
+def _sc_block_fused_common(rng, sym, cfg):
+    """block() along one leg while the COMMON leg is hard-fused and the parts differ in the sector content of its constituents"""
+    m = rng.randint(2, 3)
+    c1, c2 = rleg(rng, cfg, sym, maxD=2), rleg(rng, cfg, sym, maxD=2)
+    c1s = [c1 if rng.random() < 0.4 else perturb_leg(rng, cfg, sym, c1) for _ in range(m)]
+    c2s = [c2 if rng.random() < 0.4 else perturb_leg(rng, cfg, sym, c2) for _ in range(m)]
+    sb = rng.choice([1, -1])
+    same_b = rng.random() < 0.5
+    b0 = rleg(rng, cfg, sym, s=sb, maxD=2)
+    bs = [b0 if same_b else rleg(rng, cfg, sym, s=sb, maxD=2) for _ in range(m)]
+    n = allowed_charge(rng, cfg, sym, [c1s[0], c2s[0], bs[0]])
+    parts = [rtensor(rng, cfg, [c1s[p], c2s[p], bs[p]], n=n, cplx=False, drop=rng.choice([0, 0.3])) for p in range(m)]
+    first = rng.random() < 0.5          # position of the blocked leg
+
+    def fn():
+        fps = [t.fuse_legs(axes=((0, 1), 2), mode='hard') for t in parts]
+        if first:
+            fps = [t.transpose((1, 0)) for t in fps]
+        B = yastn.block({(p,): t for p, t in enumerate(fps)}, common_legs=(1,) if first else (0,))
+        B = B.transpose((1, 0)) if first else B
+        return B.unfuse_legs(axes=0)
+
+    def oracle(c):
+        u1 = yastn.legs_union(*c1s) if sym != 'dense' else c1
+        u2 = yastn.legs_union(*c2s) if sym != 'dense' else c2
+        bs = [t.get_legs(2) for t in parts]        # block() lays out the sectors its operands actually have
+        ds = [dense(t, {0: u1, 1: u2, 2: bs[p]}) for p, t in enumerate(parts)]
+        if sym == 'dense':
+            arr = np.concatenate(ds, axis=2)
+            bl = yastn.Leg(cfg, s=sb, D=[arr.shape[2]])
+        else:
+            ts_all = sorted({t for l in bs for t in l.t})
+            pieces, tot = [], []
+            for tt in ts_all:
+                Dt = 0
+                for p in range(m):
+                    tD = dict(zip(bs[p].t, bs[p].D))
+                    if tt in tD:
+                        off = sum(D for t2, D in zip(bs[p].t, bs[p].D) if t2 < tt)
+                        pieces.append(ds[p][:, :, off:off + tD[tt]])
+                        Dt += tD[tt]
+                tot.append(Dt)
+            if not pieces:
+                raise Skip('all parts are empty')
+            arr = np.concatenate(pieces, axis=2)
+            bl = yastn.Leg(cfg, s=sb, t=ts_all, D=tot)
+        return dict(dense=arr, legs={0: u1, 1: u2, 2: bl}, n=n, drop_history=True)
+    return dict(fn=fn, oracle=oracle, operands=parts, describe=dict(sym=sym, op='block_fused_common', m=m, first=first, same_b=same_b))
+
+
 def sc_block(rng, opts):
     """block(): direct sum along one leg (others common), optionally nested; the blocked tensor and operations over the blocked leg"""
     sym, cfg = pick_cfg(rng, opts)
+    if rng.random() < 0.25 and not opts.get('mode'):
+        return _sc_block_fused_common(rng, sym, cfg)
     r = rng.randint(2, 3)
     k = rng.randrange(r)
     m = rng.randint(2, 3)
@@ -1232,6 +1362,17 @@ def compare(res, exp, cfg_sym_zero=None):
 def views_agree(x):
     """block access (key in x, x[key]), to_numpy (both sector orders), to_nonsymmetric and get_legs describe one and the same array:
     the dense array is re-assembled here from the blocks and the legs alone"""
+    if hasattr(x, 'struct') and not x.isdiag and x.ndim != x.ndim_n and x.ndim > 0:
+        # meta-fused: the dense image must be a well-formed tensor of the logical rank
+        try:
+            ns = x.to_nonsymmetric()
+            if len(ns.trans) != ns.ndim_n or ns.ndim_n != x.ndim:
+                return 'to_nonsymmetric() of a meta-fused tensor has rank %d and a transposition record of length %d' % (ns.ndim_n, len(ns.trans))
+            if not np.array_equal(ns.consume_transpose().to_numpy(), x.to_numpy()):
+                return 'to_nonsymmetric() of a meta-fused tensor differs from to_numpy()'
+        except Exception as e:
+            return 'to_nonsymmetric() of a meta-fused tensor is unusable: %s: %s' % (type(e).__name__, e)
+        return None
     if not hasattr(x, 'struct') or x.isdiag or x.ndim != x.ndim_n or x.ndim == 0:
         return None
     nsym = x.config.sym.NSYM
@@ -1298,7 +1439,7 @@ def run_case(kind, seed, opts=None):
         return 'error', '%s: %s\n%s' % (type(e).__name__, e, traceback.format_exc()[-600:]), sc
     try:
         exp = sc['oracle'](res)
-    except yastn.YastnError as e:
+    except (yastn.YastnError, Skip) as e:
         return 'skip', 'oracle: %s' % e, sc
     msg = compare(res, exp)
     if msg:
